@@ -1,5 +1,6 @@
 import GarbleVerif.Proofs.Reach
 import GarbleVerif.Proofs.Requests
+import GarbleVerif.Proofs.AndNormal
 /-!
 # C15 — circuits contain no useless gates
 
@@ -7,9 +8,18 @@ First sentence, first clause ("apart from the two constant gates, every gate of 
 circuit contributes to at least one output"): proved for the model of `build` applied to
 **any** well-formed builder state, hence for every request sequence.
 
-Not yet proved (kept visible as statements, explored by the check's scans of every compiled
-circuit): `C15_and_normal_Statement`, `C15_and_unique_Statement`, and the "consequently"
-sentence about data-movement programs (`C15_data_movement`, needs the language-level model).
+Second clause ("no AND gate has a constant operand or the same wire twice"): proved likewise
+(`C15_and_normal`) — the builder never pushes such a gate (`optimize_and`; the AND-factoring rule of
+`push_xor` pairs an operand of an existing AND with a fresh wire), and the renumbering of `build` is
+injective on referenced wires and sends only the constants to the constant gates.
+
+Third clause ("with gate de-duplication on no two AND gates have the same pair of operands"):
+`C15_and_unique` — every AND gate the builder pushes is entered into the cache under its operands, `push_and`
+consults the cache in both orders before it pushes, and the AND pushed by the factoring rule has a fresh wire as
+operand.
+
+Not proved: the "consequently" sentence about data-movement programs (it needs the language-level model of the
+compiler for aggregates); it is explored by the check on generated copy / re-pack programs.
 -/
 namespace GV
 open Builder Req
@@ -57,12 +67,31 @@ def AndUnique (c : Circuit) : Prop :=
   ∀ (i j : Nat) x y x' y', c.gates[i]? = some (Gate.and x y) → c.gates[j]? = some (Gate.and x' y') →
     ((x = x' ∧ y = y') ∨ (x = y' ∧ y = x')) → i = j
 
-/-- full statement of the remaining clauses of the first sentence (NOT yet proved) -/
-def C15_and_normal_Statement : Prop :=
-  ∀ ig cacheOn reqs outs, 0 < ig.sum → AndNormal (Req.compile ig cacheOn reqs outs)
+/-- **no AND gate with a constant operand or the same wire twice**, for the circuit compiled from any request
+sequence, with gate de-duplication on or off -/
+theorem C15_and_normal (ig : List Nat) (cacheOn : Bool) (reqs : List Req) (outs : List Nat) :
+    AndNormal (Req.compile ig cacheOn reqs outs) := by
+  have hinv := run_inv ig cacheOn reqs
+  intro x y hmem
+  simp only [Req.compile] at hmem ⊢
+  generalize run ig cacheOn reqs = st at *
+  obtain ⟨b, rs⟩ := st
+  simp only at hmem ⊢
+  have := build_andNormal b ig okPanicWires (outs.filterMap fun o => rs[o]?) hinv.wf hinv.shift x y hmem
+  simpa [Builder.build, Circuit.totalInputs] using this
 
-def C15_and_unique_Statement : Prop :=
-  ∀ ig reqs outs, 0 < ig.sum → AndUnique (Req.compile ig true reqs outs)
+/-- **with gate de-duplication on, no two AND gates over the same pair of operands** (in either order), for the
+circuit compiled from any request sequence -/
+theorem C15_and_unique (ig : List Nat) (reqs : List Req) (outs : List Nat) :
+    AndUnique (Req.compile ig true reqs outs) := by
+  have hinv := run_inv ig true reqs
+  have hco := run_cacheOn ig true reqs
+  intro i j x y x' y' hi hj hsame
+  simp only [Req.compile] at hi hj
+  generalize run ig true reqs = st at *
+  obtain ⟨b, rs⟩ := st
+  simp only at hi hj hco
+  exact build_andUnique b ig okPanicWires (outs.filterMap fun o => rs[o]?) hinv.wf hco i j x y x' y' hi hj hsame
 
 /-! non-vacuity: a builder state with one live and one dead gate; `build` keeps three gates
 (two constants + the live one), so the quantifier of `C15_build_reachable` is inhabited -/
